@@ -164,6 +164,7 @@ def lean_gate(prop, tier):
     Returns a dict for the evidence; `broken` lists obligations that no longer check."""
     ob = obligations_of(prop)
     names = ob["theorems"]
+    build_probe()              # the tables must come from /repo's CURRENT sources
     regenerate_tables()
     t0 = time.time()
     p = lake_build(ob["modules"] + ["minkdriver"])
